@@ -102,4 +102,12 @@ CHECKS = {
         "level_text": "Decides the mechanism clauses (loop exit, pre-test, truncation, counting, single place of application). The two-run relation 'first n of the unlimited result' is not decided.",
         "level_note": 'Trusted: MIR of the nightly front end.',
     },
+    "C10": {
+        "modules": ["rules_c10"],
+        "explanation": 'Abstract interpretation of FollowFileIterator::next on its MIR: every acyclic path of one loop iteration is executed over a symbolic content domain (sequences of pending(field) and read#i atoms, with aliasing of borrows, take/replace/clone/append/clear/pop transfer functions and correlation of repeated ends_with tests) and checked for content conservation: retry keeps pending+read once and in order, delivery yields pending+read minus exactly one newline that a dominating test proved present, carries are empty afterwards, None only on a read error. Plus: the accumulating read is byte-level; the --head/--tail seek arms; the executor feeds each delivered item once, unmodified, to the engine.',
+        "trusted": ["rustc nightly MIR + trait resolution", "dependencies behave as documented"],
+        "technique": "abstract interpretation (symbolic content domain) over all acyclic MIR paths of the iterator's loop body; arm/constant and provenance rules",
+        "level_text": "Decides the buffer mechanism that every writer/reader schedule relies on, for all paths of the iterator; the interleaving quantifier itself and BufReader's EOF behaviour (std) are not enumerated.",
+        "level_note": 'Trusted: std BufReader::read_until semantics at EOF; MIR of the nightly front end; transfer-function table for std String/Vec APIs in rules_c10.py.',
+    },
 }
